@@ -475,3 +475,27 @@ func (r *verifOneByteReader) Read(p []byte) (int, error) {
 	r.pos++
 	return 1, nil
 }
+
+// VerifC02DcsParams: the hook action decodes every DCS parameter string of n bytes over
+// digits and ';' exactly: one value per ';' field, an empty field meaning 0.
+func VerifC02DcsParams() {
+	n := zzverif.Param("n")
+	p := verifNewParser("")
+	var ps []rune
+	for i := 0; i < n; i++ {
+		r := verifClassByte("pb", 0x30, 0x3B, 0x30, 0x3B)
+		zzverif.Assume(r != ':')
+		ps = append(ps, r)
+	}
+	p.params = append(p.params, ps...)
+	p.hook('q')
+	want := refDcsParams(ps)
+	ok := len(p.dcs.Parameters) == len(want)
+	if ok {
+		for i := range want {
+			ok = ok && p.dcs.Parameters[i] == want[i][0]
+		}
+	}
+	zzverif.Assert(ok, "dcs-parameters-decoded-exactly")
+	zzverif.Reach("end")
+}
